@@ -8,7 +8,7 @@ import itertools
 from ..interp import const, cval, has_const
 from ..source import norm_text
 from .common import def_map, expand, walk_no_nested
-from .geo import uniq_events
+from .geo import under, uniq_events
 
 FEG = 'gemdat.path.free_energy_graph'
 OP = 'gemdat.path.optimal_path'
@@ -77,7 +77,7 @@ def check_moves(ctx, R1='R1', R6='R6'):
         ctx.ob(R1, fi, f'move table (diagonal={diag})', ok, msg)
     # R6 neighbour wrap
     it = ctx.entry(FEG, args={'diagonal': const(True)})
-    edges = uniq_events(it, {'graph_add_edge'}, lambda f: f.qualname == FEG)
+    edges = uniq_events(it, {'graph_add_edge'}, under(FEG))
     if not edges:
         ctx.ob(R6, fi, 'add_edge', None, 'edge insertion not found')
     for e in edges:
@@ -161,7 +161,7 @@ def check_moves(ctx, R1='R1', R6='R6'):
                             break
                 if rv is not None and rv.shapeof is not None:
                     # the shape must be that of the array the node energies are read from
-                    data_nodes = [x for x in uniq_events(it, {'graph_add_node'}, lambda f: f.qualname == FEG)]
+                    data_nodes = [x for x in uniq_events(it, {'graph_add_node'}, under(FEG))]
                     ok, msg = True, 'neighbour wrapped modulo the shape of the energy array'
                     adds = isinstance(l, ast.BinOp) and isinstance(l.op, ast.Add)
                     if not adds:
@@ -304,7 +304,7 @@ def check_tables(ctx):
                 ctx.ob('R4', f, n, a in node_attrs, f"node attribute '{a}' is written by the graph builder" if a in node_attrs else
                        f"node attribute '{a}' is never written by the graph builder")
     # the exponential weight is capped from above by the threshold
-    for e in uniq_events(it, {'graph_add_edge'}, lambda f: f.qualname == FEG):
+    for e in uniq_events(it, {'graph_add_edge'}, under(FEG)):
         w = e['attrs'].get('weight_exp')
         if w is None:
             continue
@@ -315,7 +315,7 @@ def check_tables(ctx):
         else:
             ctx.ob('R4', fi, f'{norm_text(e["node"])} [weight_exp]', True if (mm is None or mm[0] == 'min') else None, 'exponential weight capped by the threshold')
     # node admission and energy stored
-    for e in uniq_events(it, {'graph_add_node'}, lambda f: f.qualname == FEG):
+    for e in uniq_events(it, {'graph_add_node'}, under(FEG)):
         en = e['attrs'].get('energy')
         key = e['key']
         ok = en is not None and key is not None and key.voxel
